@@ -15,7 +15,7 @@ SrcPath == {"path"}
 SrcAll == {"path", "fileobj", "bytesio"}
 ReadsFour == {"to_pandas", "iter", "head", "count"}
 ReadsAll == {"to_pandas", "iter", "head", "count", "filelike"}
-ColsAll == {<<>>, <<"x">>, <<"s", "x">>, <<"k">>, <<"x", "k", "s">>}
-ColsFew == {<<>>, <<"s", "x">>}
+ColsAll == {<<>>, <<"x">>, <<"s", "x">>, <<"k">>, <<"x", "k", "s">>, <<"t", "n">>, <<"f", "t", "x">>}
+ColsFew == {<<>>, <<"s", "x">>, <<"t", "n">>}
 Export == pc = "done" => PrintT(ToJson([prog |-> prog, outcome |-> outcome, src |-> src]))
 =============================================================================
